@@ -352,6 +352,23 @@ func init() {
 				special(func(c *cliCase) { c.reqsrc = src }, "[\"NO_SUCH_TAG\"]", jarr(jstr("NO_SUCH_TAG")))
 				special(func(c *cliCase) { c.reqsrc = src }, "[[\"EMS_REQ_POWER_PV\",\"UInt16\",70000]]", jarr(jarr(jstr("EMS_REQ_POWER_PV"), jstr("UInt16"), jnum("70000"))))
 				special(func(c *cliCase) { c.reqsrc = src }, "[\"EMS_POWER_PV\"]", jarr(jstr("EMS_POWER_PV"))) // a response tag: refused by validation after authentication
+				// an acceptable element followed by an unacceptable one, unsplit and split: nothing may be transmitted
+				for _, sp := range []bool{false, true} {
+					sp := sp
+					multi := func(text string, top *jn) {
+						cc := base()
+						cc.reqsrc, cc.split = src, sp
+						pc := newPeerConn(cliKey)
+						rs := []reaction{answer(pc.reply(authReply(10), true))}
+						for j := uint32(1); j <= 3; j++ {
+							rs = append(rs, answer(pc.reply(nonceReply(j), true)))
+						}
+						emit(cliLine(cc, text, top, [][]reaction{rs}, nil))
+					}
+					multi("[\"EMS_REQ_POWER_PV\",\"NO_SUCH_TAG\"]", jarr(jstr("EMS_REQ_POWER_PV"), jstr("NO_SUCH_TAG")))
+					multi("[\"EMS_REQ_POWER_PV\",\"EMS_REQ_POWER_BAT\",[\"BAT_REQ_RSOC\",\"UInt16\",70000]]",
+						jarr(jstr("EMS_REQ_POWER_PV"), jstr("EMS_REQ_POWER_BAT"), jarr(jstr("BAT_REQ_RSOC"), jstr("UInt16"), jnum("70000"))))
+				}
 				special(func(c *cliCase) { c.reqsrc = src }, "[this is not json", jnull())
 				special(func(c *cliCase) { c.reqsrc = src }, "not json at all", jnull())
 			}
